@@ -355,7 +355,8 @@ func runC17(r *Run) {
 		{"[]S5", []S5{{V: 1, Sec: "s"}, {V: 2}}}, {"nil-*[]int", (*[]int)(nil)}, {"nil-*S1", (*S1)(nil)}, {"nil-*map", (*map[string]int)(nil)}, {"**[]int", func() **[]int { l := &[]int{1}; return &l }()}, {"[2]S1", [2]S1{{A: 1}, {A: 2}}}, {"[2]string", [2]string{"a", "b"}}, {"[]json-like", []interface{}{map[string]interface{}{"A": 1, "B": "a"}, map[string]interface{}{"A": "x"}, map[string]interface{}{}}},
 	}
 	exprs := []string{"", `"" == 1`, "A == 1", "A != 1", "B == a", "A == 1 or B == b", "not A == 1", "A is empty", "M.k == 1", "M is not empty", "zz == 1", "A == x", "V == 1", `"/A" == 1`, "any M as k { k == k }", "A matches `1`",
-		`"" is empty`, "A == 1 and B == a", "a b", "(("}
+		`"" is empty`, "A == 1 and B == a", "a b", "((", "B matches `^a` and A == 1", "B matches `^a` or A == x", "any M as k { k == k } or A == 1", "A == 1 or any M as k { k == k }", "B not matches `b` and M.k == 1", "A == 1 or B matches `[`",
+		"A != 99", "A != 99 or B == zz", "not A == 99"}
 	for _, ct := range containers {
 		for _, e := range exprs {
 			before := sIface(ct.d)
@@ -376,6 +377,12 @@ func runC17(r *Run) {
 			}
 			if sIface(ct.d) != before {
 				r.Violate("input-modified", ct.name+"|"+e, c, "the input container changed")
+			}
+			if rv, iv := reflect.ValueOf(res), reflect.ValueOf(ct.d); cls == "kept" && e != "" && rv.Kind() == reflect.Slice && iv.Kind() == reflect.Slice && rv.Len() > 0 && rv.Pointer() == iv.Pointer() {
+				r.Violate("result-is-not-a-new-slice", ct.name+"|"+e, c, "the result shares the input's backing array: a write to the result changes the input")
+			}
+			if rv, iv := reflect.ValueOf(res), reflect.ValueOf(ct.d); cls == "kept" && e != "" && rv.Kind() == reflect.Map && iv.Kind() == reflect.Map && rv.Pointer() == iv.Pointer() {
+				r.Violate("result-is-not-a-new-map", ct.name+"|"+e, c, "the result is the input map itself")
 			}
 			// element-wise coherence with Evaluate
 			if cls == "kept" || o == "ERR" {
@@ -635,6 +642,8 @@ func runC18(r *Run) {
 		{"W.m.zz != 1", S7{W: Wrap{map[string]interface{}{"m": map[string]interface{}{"k": 1}}}}}, {"lab.zz != x", S7{Labels: map[string]string{"a": "b"}}}, {"labels.zz is empty", S7{Labels: map[string]string{"a": "b"}}},
 		{"any L as t { t == BLUE }", S1{L: []string{"red", "blue"}}}, {"L.1 == BLUE", S1{L: []string{"red", "blue"}}}, {"all L as i, t { t != blue }", S1{L: []string{"red", "blue"}}}, {"BLUE in L", S1{L: []string{"red", "blue"}}}, {"B == AB", S1{B: "ab"}}, {"any Arr2 as s { s == X }", struct{ Arr2 [2]string }{[2]string{"x", "y"}}},
 		{`"/` + strings.Repeat("\U00020000", 400) + `" == 1 and b == 2 or c == 3`, map[string]interface{}{strings.Repeat("\U00020000", 400): 1, "b": 2, "c": 3}},
+		{"xs.010 == 8", map[string]interface{}{"xs": []interface{}{0, 1, 2, 3, 4, 5, 6, 7, 8, 9, 10, 11}}}, {`"/xs/010" == 10 or xs["0x0a"] == 10`, map[string]interface{}{"xs": []interface{}{0, 1, 2, 3, 4, 5, 6, 7, 8, 9, 10, 11}}},
+		{"xs.09 == 9", map[string]interface{}{"xs": []interface{}{0, 1, 2, 3, 4, 5, 6, 7, 8, 9, 10, 11}}}, {"xs.0b11 == 3 and xs.1_0 == 10", map[string]interface{}{"xs": []interface{}{0, 1, 2, 3, 4, 5, 6, 7, 8, 9, 10, 11}}},
 		{"l.5 == 1", map[string]interface{}{"l": []int{1, 2}}}, {`"/l/2" == 1 or l.0 == 1`, map[string]interface{}{"l": []int{1, 2}}}, {"items.7.name == a", map[string]interface{}{"items": []interface{}{map[string]interface{}{"name": "a"}}}}, {"l.-1 is empty", map[string]interface{}{"l": []int{1}}},
 		{"any l as x { l.9 == x }", map[string]interface{}{"l": []int{1, 2}}}, {"a.b.c == 1", map[string]interface{}{"a": map[string]interface{}{"b": 5}}}, {"s.0 == a", map[string]interface{}{"s": "abc"}},
 		{"owner == nobody", map[string]interface{}{"owner": nil}}, {"any tags as t { t == a }", map[string]interface{}{"tags": []interface{}{"blue", nil}}}, {"I == a", S1{I: nil}}, {"P == 1", S1{}},
@@ -703,7 +712,7 @@ func runC18(r *Run) {
 				}
 			}
 			// last of repeated options wins
-			other := mk(setting{tag: map[string]string{"bexpr": "alt", "alt": "bexpr"}[st.tag], hook: 1 + st.hook%5, unk: "other", budget: 0})
+			other := mk(setting{tag: map[string]string{"bexpr": "alt", "alt": "bexpr"}[st.tag], hook: 1 + st.hook%5, unk: "other", budget: 3})
 			for k := 0; k < 4; k++ {
 				a := evalWith(p.e, p.d, []optSpec{other[k], all[k]})
 				b := evalWith(p.e, p.d, []optSpec{all[k]})
@@ -744,6 +753,7 @@ func runC18(r *Run) {
 		r.Sample(map[string]interface{}{"expression": p.e, "datum": describe(p.d), "outcome_without_options": base})
 	}
 	c18AfterCreation(r)
+	c18TextBudgetRunTogether(r)
 	// the hook's replacement value is what the operators see
 	for _, t := range []struct {
 		e    string
@@ -844,6 +854,8 @@ func runC13(r *Run) {
 	}
 	c13InPlaceAndNested(r, n/2, hist)
 	c13RepeatStability(r, n/2)
+	c13PanickingHooksAndCrowds(r)
+	sameTypeDifferentShape(r, "history-dependent")
 	// filters
 	for i := 0; i < n/2; i++ {
 		rng = NewRng(mix(r.Seed, strHash("C13f"), uint64(i)))
@@ -882,6 +894,7 @@ func runC13(r *Run) {
 // ---------- C12: concurrency (built with -race) ----------
 
 func runC12(r *Run) {
+	coldStart(r) // must come before any other use of the library in this process
 	r.Rule = "one Evaluator / Filter shared by 16 goroutines, each making 20 (thorough 200) calls on the same and on different data, for expressions covering every operator incl. first use of matches / not matches, quantifiers, unknown value and hooks; evaluators are also created concurrently; the binary is built with the race detector, whose happens-before verdict does not depend on the schedule observed; predicate: no race report, every concurrent result equals the sequential one, the shared tree (VerifAST) is unchanged; distinct = (expression, datum index)"
 	exprs := []string{"A == 1", "B != a", "1 in LI", "L contains a", "B is empty", "M is not empty", "B matches `^a+`", "B not matches `b$`", "any L as x { x matches `o` }", "all M as k, v { v == 1 and k matches `^k` }",
 		"zz == 1", "M.zz != 1", "P == 1", "I == a", "any LS as s { s.A == 1 or s.B matches `x` }", "not A == 1 and B matches `^a+`", "X.B matches `[`",
